@@ -275,3 +275,45 @@ Fixpoint back_plan (sc : bool) (TP : tproblem) (P' : problem) (eps : Qc) (now : 
           end
       end
   end.
+
+(* ------------------------------------------------------------------ side conditions of the whole-plan statement *)
+(* the duration interval evaluated in [s] contains at least one value (the compiled action does not test this) *)
+Definition dur_nonempty (sc : bool) (P : problem) (s : state) (bind : list (N * value)) (d : daction) : bool :=
+  match eval sc (d_lo d) (mk_interp P s bind), eval sc (d_hi d) (mk_interp P s bind) with
+  | Some (VNum l), Some (VNum h) => if d_lopen d || d_ropen d then qc_ltb l h else qc_leb l h
+  | _, _ => false
+  end.
+
+(* No lifted aliasing inside one durative action (the compiler merges and substitutes per LIFTED fluent expression):
+   effect targets are applied to parameters / objects only; two effects on the same fluent symbol have syntactically
+   the same target; an assignment is the only effect of its timing on its target; every occurrence of a written
+   fluent symbol in a condition or an effect value is syntactically one of the targets. *)
+Definition flat_arg (e : expr) : bool := match e with EParam _ | EObj _ => true | _ => false end.
+
+Definition key_sym (ks : list (N * list expr)) (f : N) : bool := existsb (fun k => (fst k =? f)%N) ks.
+Definition key_mem (ks : list (N * list expr)) (f : N) (args : list expr) : bool :=
+  existsb (fun k => (fst k =? f)%N && list_expr_eqb (snd k) args) ks.
+
+Fixpoint occs_ok (ks : list (N * list expr)) (e : expr) {struct e} : bool :=
+  match e with
+  | EBool _ | EInt _ | EReal _ | EObj _ | EParam _ | EVar _ _ => true
+  | EFluent g args => forallb (occs_ok ks) args && (negb (key_sym ks g) || key_mem ks g args)
+  | EIFun _ l | EAnd l | EOr l | EPlus l | ETimes l => forallb (occs_ok ks) l
+  | ENot a | EAlways a | ESometime a | EAtMostOnce a | EExists _ a | EForall _ a => occs_ok ks a
+  | EImplies a b | EIff a b | EMinus a b | EDiv a b | ELe a b | ELt a b | EEquals a b
+  | ESometimeBefore a b | ESometimeAfter a b => occs_ok ks a && occs_ok ks b
+  end.
+
+Definition group_plain (g : groups_t) : bool :=
+  forallb (fun kl => match snd kl with
+                     | [_] => true
+                     | l => forallb (fun e => match e_kind e with KAssign => false | _ => true end) l
+                     end) g.
+
+Definition alias_free (d : daction) : bool :=
+  let effs := start_effs d ++ end_effs d in
+  let ks := map (fun e => (e_fl e, e_args e)) effs in
+  forallb (fun e => forallb flat_arg (e_args e)) effs &&
+  forallb (fun e1 => forallb (fun e2 => negb (e_fl e1 =? e_fl e2)%N || list_expr_eqb (e_args e1) (e_args e2)) effs) effs &&
+  group_plain (group (start_effs d)) && group_plain (group (end_effs d)) &&
+  forallb (occs_ok ks) (flat_map snd (d_conds d) ++ map e_val effs).
